@@ -264,7 +264,9 @@ def run(facts, tier):
     if not ok:
         t4.violate("map-type", f"jaq_json::Map is {al[0]['ty'] if al else 'missing'}, not an insertion-ordered map: key order would not survive a round trip")
     if rfn:
-        ins = [n for n in find(rfn[0]["body"], lambda n: n.get("k") == "MethodCall" and n["m"]["name"] in ("insert", "insert_full", "shift_insert", "entry", "insert_sorted", "insert_before")) if "IndexMap" in n.get("recv_ty", "") or "Map" in n.get("recv_ty", "")]
+        # the parser and the private helpers it is split into (every function of the reader module)
+        rbodies = [f_["body"] for f_ in facts.hir("jaq_json") if f_["def"].startswith("jaq_json::read::") and not f_.get("test")]
+        ins = [n for n in find(rbodies, lambda n: n.get("k") == "MethodCall" and n["m"]["name"] in ("insert", "insert_full", "shift_insert", "entry", "insert_sorted", "insert_before")) if "IndexMap" in n.get("recv_ty", "") or "Map" in n.get("recv_ty", "")]
         names = sorted(n["m"]["name"] for n in ins)
         t4.examined("object-insert", True, {"object_member_insertions": names})
         if names != ["insert"]:
